@@ -113,9 +113,9 @@ def judge(p, node, envs):
 
 def run_batch(job):
     """job = (parser name, context, [programs]); returns list of (program index in batch, record) and counters"""
-    pname, context, progs = job
+    pname, context, progs, envs_raw = job
     parse = _G["parsers"][pname]
-    envs = _G["envs"]
+    envs = [ir_expr.env_from_spec(e) for e in envs_raw]
     out = []
     evals = 0
 
@@ -196,11 +196,11 @@ def tlc_corpus(ctx, cfg, what, slices=1, env=None, procs=1, timeout=1500):
 
 
 def compare_corpus(ctx, progs, pname, context, envs_raw, procs):
-    jobs = [(pname, context, progs[i:i + BATCH]) for i in range(0, len(progs), BATCH)]
+    jobs = [(pname, context, progs[i:i + BATCH], envs_raw) for i in range(0, len(progs), BATCH)]
     res = par.pmap(run_batch, jobs, procs)
     evals = 0
     nviol = 0
-    for (pn, cx, batch), (bad, ev) in zip(jobs, res):
+    for (pn, cx, batch, _), (bad, ev) in zip(jobs, res):
         evals += ev
         for i, rec in bad:
             if pname != "checked-in":
@@ -259,6 +259,20 @@ def _run(ctx, thorough, procs, scratch):
     with open(cfile, "w") as f:
         json.dump(choices, f)
 
+    # thorough: regenerate the parser from the working tree's grammar FIRST, then fork the workers (they inherit it,
+    # and are forked from a still small parent), then run TLC
+    _G["parsers"] = {"checked-in": ir_expr.parse_checked_in}
+    regen_note = None
+    grammar_rejected = None
+    if thorough:
+        regen, info = ir_expr.regenerate_parser(scratch)
+        if regen is None:
+            grammar_rejected = info
+        else:
+            _G["parsers"]["regenerated"] = regen
+            regen_note = info
+    par.start(procs)
+
     corpora = []   # (name, programs)
     # the TLC runs are independent: start the derived-tree run alongside the enumerations
     with ThreadPoolExecutor(2) as bg:
@@ -279,22 +293,13 @@ def _run(ctx, thorough, procs, scratch):
 
     envs_raw = envobj["envs"]
     envs = [ir_expr.env_from_spec(e) for e in envs_raw]
-    _G["envs"] = envs
-    _G["parsers"] = {"checked-in": ir_expr.parse_checked_in}
     selftest(envs)
 
-    regen_note = None
-    if thorough:
-        regen, info = ir_expr.regenerate_parser(scratch)
-        if regen is None:
-            ctx.violation({"observable": "grammar", "tags": ["regenerated-parser", "antlr-rejects-grammar"], "exception_type": None,
-                           "detail": "ANTLR rejects src/pymoca/Modelica.g4: %s" % info}, {"parser": "regenerated", "program": None})
-        else:
-            _G["parsers"]["regenerated"] = regen
-            regen_note = info
-            if not (info.get("lexer_atn") and info.get("parser_atn")):
-                ctx.note_drift("generated/ differs from a fresh ANTLR run on Modelica.g4")
-
+    if grammar_rejected is not None:
+        ctx.violation({"observable": "grammar", "tags": ["regenerated-parser", "antlr-rejects-grammar"], "exception_type": None,
+                       "detail": "ANTLR rejects src/pymoca/Modelica.g4: %s" % grammar_rejected}, {"parser": "regenerated", "program": None})
+    elif regen_note is not None and not (regen_note.get("lexer_atn") and regen_note.get("parser_atn")):
+        ctx.note_drift("generated/ differs from a fresh ANTLR run on Modelica.g4")
     allprogs = [p for _, ps in corpora for p in ps]
     # ---- vacuity -----------------------------------------------------------------------------
     roots = {p["shape"][0] for p in allprogs if p["kind"] == "expr"}
@@ -360,8 +365,7 @@ def replay(ctx, sc):
             _G["parsers"] = {"regenerated": regen}
         else:
             _G["parsers"] = {"checked-in": ir_expr.parse_checked_in}
-        _G["envs"] = [ir_expr.env_from_spec(e) for e in sc.get("envs", [])]
-        bad, _ = run_batch((sc["parser"], sc["context"], [sc["program"]]))
+        bad, _ = run_batch((sc["parser"], sc["context"], [sc["program"]], sc.get("envs", [])))
         recs = []
         for _, rec in bad:
             if sc["parser"] != "checked-in":
